@@ -149,6 +149,9 @@ _FIXED = [
      ["(add 6 0 1)", "(add 6 1 2)", "(add 7 3 2)", "(add 5 3 0)"]),
     ("D", [(0, "-"), (0, "-"), (0, "-"), (0, "-"), (1, "-"), (1, "-"), (2, 0), (2, 1)],
      ["(set 9 6 4)", "(set 3 1 4)", "(add 8 4 7)", "(add 10 2 5)"]),
+    # a role with a super-property field of its own (rright) next to the super-properties on its role taker
+    ("D", [(0, "-"), (0, "-"), (0, "-"), (0, "-"), (1, "-"), (1, "-"), (2, 0), (2, 1)],
+     ["(set 9 6 4)", "(add 13 7 5)", "(add 2 0 4)", "(add 8 5 6)"]),
 ]
 
 
@@ -165,7 +168,7 @@ def generate(rng, tier, n):
         objs = _world(rng, tag)
         # favour the transitive fields and the role: that is where order could matter
         trans_fields = [f for f, (c, name) in enumerate(d["fields"])
-                        if name in ("sub_organization_of", "near", "anc", "parent", "desc", "head_of", "rbottom", "owns")]
+                        if name in ("sub_organization_of", "near", "anc", "parent", "desc", "head_of", "rbottom", "owns", "rright")]
         ops = _ops(rng, d, objs, rng.randint(1, maxlen), trans_fields)
         if not ops:
             continue
